@@ -1070,6 +1070,10 @@ func (e flattenEngine) c07(res *runner.Result, c *runner.Case, files map[string]
 	if tier == "thorough" {
 		P, R = 5, 6
 	}
+	if c.Name == "witness/D20" {
+		// the witness of a known, order-dependent finding: enough repeats for both outcomes to show in (almost) every run
+		R = 30
+	}
 	var ref string
 	var refDoc jx.Obj
 	orders := map[string]bool{}
